@@ -138,9 +138,15 @@ def c14_searches(E, procs=(2,)):
         serial = run(1, lambda x: x)
     except Exception:
         return
+    
     try:
         par = run(p, lambda x: list(reversed(x)) if E.flag("reversed_order") else x)
     except Exception as e:
+        if (not E.symbolic) and what == "fva-loopless" and isinstance(e, ValueError) and "lower bound must be less than" in str(e):
+            # float rounding inside _add_cycle_free (bounds taken from fluxes that differ in the last digits): outside every
+            # claim (DESIGN 4.0); seen on a witness whose bound was 1e-8 away from another
+            from vlib.vsym import Abort
+            raise Abort("float rounding in loopless FVA on a numeric replay")
         E.prove(False, "parallel-run-succeeds-when-serial-does", exc=type(e).__name__, msg=str(e)[:200])
         return
     same(E, before, observe(m), "caller-model-unchanged", what=what)
